@@ -8,7 +8,7 @@ VO = ["theories/Misc/CorrRemover.vo", "theories/Misc/CorrRemover_proofs.vo", "th
 PROPS_FILES = ["props/C15.v"]
 TRANSLATORS = []
 REQUIRES = ["From FL Require Import Num Flat CorrRemover."]
-SHARD = 25
+SHARD = 20
 CHUNK = 4
 CASE_TIMEOUT = 120
 
@@ -76,6 +76,8 @@ def _centred(col):
 def _mk(r, i, tier):
     n = r.randint(2, 7)
     k = r.randint(1, 4)
+    if n <= k and r.chance(2, 3):        # centred columns have rank <= n - 1: keep most blocks full rank
+        n = r.randint(k + 1, 7)
     p = r.randint(1, 3)
     m = k + p
     colsv = [[r.randint(-4, 6) for _ in range(n)] for _ in range(m)]
@@ -257,6 +259,12 @@ def compare(case, out, model):
     n = len(cols[0])
     alpha = float(Fraction(case["alpha"]))
     sc = _scale(case)
+    # Known defect class of the unchanged tree (registered in known_findings.json): the exact centred sensitive
+    # block is rank deficient (model: no unique beta) AND numpy's lstsq misjudged its rank after the float
+    # centring, visible as a blown-up beta_ (exact minimum-norm coefficients of these inputs are O(10)).
+    # Everything else -- full-rank inputs, rank-deficient inputs with a sane beta_ -- keeps the plain signature.
+    bmax = max([abs(b) for row in out["beta"] for b in row] + [0.0])
+    rd = "-rank-deficient-block" if (model["fitted"] is None and bmax > 1e6) else ""
     # ---- oracle on the implementation alone -------------------------------------------------
     if out["shape"] != [n, len(use)]:
         v.append((f"{PID}/fit_transform/shape/columns-not-dropped", f"output shape {out['shape']}, expected "
@@ -280,7 +288,7 @@ def compare(case, out, model):
             bound = TOL * (1.0 + n * max(abs(x) for x in r + [1.0]) * max(abs(x - ms) for x in s + [ms + 1.0]))
             worst = max(worst, abs(cv) / bound)
     if worst > 1.0:
-        v.append((f"{PID}/fit_transform/covariance/non-zero", "alpha = 1 output has non-zero sample covariance "
+        v.append((f"{PID}/fit_transform/covariance/non-zero{rd}", "alpha = 1 output has non-zero sample covariance "
                   f"with a sensitive column (|cov|/tolerance = {worst:.3g})",
                   "sum_i (s_ij - mean s_j)(r_ik - mean r_k) = 0 for every sensitive j and output k", "property"))
     if not _mclose(out["again"], out["out"], sc * sc):
@@ -299,7 +307,7 @@ def compare(case, out, model):
                       "midpoint of their transforms", "transform is affine", "property"))
     # ---- implementation vs (proved) model --------------------------------------------------
     if not _mclose(out["out"], model["out"], sc * sc):
-        v.append((f"{PID}/fit_transform/output/differs-from-model", "fit_transform differs from alpha*(X_use - "
+        v.append((f"{PID}/fit_transform/output/differs-from-model{rd}", "fit_transform differs from alpha*(X_use - "
                   "least-squares projection on the per-column-centred sensitive columns) + (1-alpha)*X_use",
                   "output equals CorrRemover.fit_transform (tolerance 1e-8)", "property"))
     if model["fitted"] is not None:
@@ -320,7 +328,7 @@ def compare(case, out, model):
 def tags(case, out, model):
     use, sens = (None, None)
     t = [f"container:{case['container']}", f"alpha:{case['alpha']}", f"n:{len(case['cols'][0])}",
-         f"degen:{case['degen']}", f"k:{len(case['ids'])}", f"p:{len(case['cols']) - len(set(map(str, case['ids'])))}"]
+         f"degen:{case['degen']}", f"k:{len(case['ids'])}", f"p:{len([l for l in case['labels'] if l not in case['ids']])}"]
     if model is not None and model.get("out") is not None:
         t.append("rank:full" if model["fitted"] is not None else "rank:deficient")
         if model["scalar_centring_same"] is False:
